@@ -119,6 +119,7 @@ async def drive(tier: str, seed: int, corpus: E.Corpus, info: dict[str, Any], *,
             items += C.model_aware_valid(m, sess, rnd, 80 if quick else 1500)
             items += C.structured_valid(rnd, 120 if quick else 1500)
             items += C.structured_boundary()
+            items += C.idle_family(m, sess)
             if sess == 1 and (not quick or mi_ % 3 == 0):
                 items += sid_payloads(rnd, 0 if quick else 2)
             if not small and (not quick or mi_ % 3 == 0):
